@@ -79,6 +79,19 @@ NETS = {
             ("tot", {"PS-A": 0.25, "PS-B": 0.25, "PS-C": 0.25}, 20.2),
         ],
     },
+    # N5: distinct EVSE maxima (32/20/24) and voltages: discriminates laxity / processing-time keys
+    "N5": {
+        "stations": {
+            "PS-A": (("cont", 0, 32), 208, 30),
+            "PS-B": (("cont", 0, 20), 240, -90),
+            "PS-C": (("fin", [6, 12, 18, 24]), 208, 150),
+        },
+        "constraints": [
+            ("la", {"PS-A": 1, "PS-C": -1}, 33.7),
+            ("lb", {"PS-B": 1, "PS-A": -1}, 29.9),
+            ("pa", {"PS-A": 0.25, "PS-B": 0.25, "PS-C": -0.5}, 9.3),
+        ],
+    },
 }
 
 
